@@ -10,7 +10,7 @@ COQ_RUN = "run10"
 COQ_CASE_TYPE = "case10"
 SHARD = 60
 CASE_TIMEOUT = 8        # a call that does not return within 8 s counts as non-terminating (ordinary cases: milliseconds)
-RULE = ("every path is flattened twice in the same process from fresh copies (second result judged, first must stay intact); pieces whose half split lands exactly on one of their own end nodes (3(p1+p2)+p3 = 7 p0 and mirror images, closed pieces with opposite handles); node lists of 1..6 nodes: control points on a quarter-integer grid in [-64, 64] (the float run is then exact and is compared node for node with the "
+RULE = ("tiny pieces whose control polygon fits a flatness-sized box; every path is flattened twice in the same process from fresh copies (second result judged, first must stay intact); pieces whose half split lands exactly on one of their own end nodes (3(p1+p2)+p3 = 7 p0 and mirror images, closed pieces with opposite handles); node lists of 1..6 nodes: control points on a quarter-integer grid in [-64, 64] (the float run is then exact and is compared node for node with the "
         "exact model), and general floats (judged by the refinement checker with eps = 1e-9 x scale): loops, cusps, coincident endpoints, already-flat pieces, "
         "handles overshooting the chord; small shapes (handles of a few 2^-11) translated to +-2^20 / 10^6 with flatness 2^-13..2^-10; flatness from 1/4 to 64; non-trivial = at least one piece was split")
 TRUSTED = ["on the quarter-integer grid every float operation of the run is exact (values stay below 2^53 ulp) so float = rational",
@@ -85,6 +85,21 @@ def generate(rng, tier):
         pre = _nodes(rng, "grid")[:rng.choice([0, 0, 1])]; post = _nodes(rng, "grid")[:rng.choice([0, 0, 1])]
         nodes = pre + [[piece[0], piece[0], piece[1]], [piece[2], piece[3], piece[3]]] + post
         cases.append({"nodes": nodes, "flat": F(rng.choice([1, 1, 2, 4])) / rng.choice([1, 2, 4, 8]), "exact": True, "family": "split-lands-on-own-end-node"})
+    # tiny pieces: all four control points inside a box a little smaller than the flatness in both directions, with a handle pointing
+    # diagonally away from the chord (between 1 and 1.41 flatness from it): small is not flat
+    for _ in range(max(12, n // 10)):
+        flat = F(1, rng.choice([1, 2, 8, 64])); u = flat / 8
+        ox, oy = F(rng.randint(-40, 40)), F(rng.randint(-40, 40))
+        g = lambda: (ox + u * rng.randint(-3, 3), oy + u * rng.randint(-3, 3))
+        if rng.random() < 0.5:
+            p0 = (ox, oy); p1 = (ox - 6 * u, oy + 6 * u); p2 = p3 = (ox + u * rng.randint(0, 1), oy)
+            if rng.random() < 0.5: p1, p2 = p2, (p3[0] + 6 * u, p3[1] - 6 * u) if False else p1
+        else:
+            p0, p1, p2, p3 = g(), g(), g(), g()
+        piece = [p0, p1, p2, p3]
+        if rng.random() < 0.3: piece = [(y, x) for x, y in piece]
+        nodes = [[piece[0], piece[0], piece[1]], [piece[2], piece[3], piece[3]]]
+        cases.append({"nodes": nodes, "flat": flat, "exact": True, "family": "tiny-piece-in-a-flatness-sized-box"})
     for _ in range(n // 6):
         nodes = _far_nodes(rng)
         cases.append({"nodes": nodes, "flat": F(1, 2 ** rng.choice([13, 12, 11, 10])), "exact": True, "family": "far-from-origin/n=%d" % len(nodes)})
